@@ -352,7 +352,8 @@ func (l *vfE5Life) deliver(t *Topic, c *Channel, k int64) bool {
 	msg.Attempts++
 	c.StartInFlightTimeout(msg, k, time.Hour)
 	l.cl[k].SendingMessage()
-	l.op(fmt.Sprintf("deliver %s %s %d %s %s", t.name, c.name, k, src, vfE5IDNum(msg.ID)), "ok")
+	l.op(fmt.Sprintf("deliver %s %s %d %s %s", t.name, c.name, k, src, vfE5IDNum(msg.ID)),
+		fmt.Sprintf("ok att=%d ts=%d body=%s", msg.Attempts, msg.Timestamp, vfHex(msg.Body)))
 	return true
 }
 
@@ -689,9 +690,16 @@ func (l *vfE5Life) randomOp() {
 func vfE5NewLife(t *testing.T, out *vfOut, r *vfRand, dir string, memq int, hist map[string]int) *vfE5Life {
 	opts := vfE5Opts(dir)
 	opts.MemQueueSize = int64(memq)
-	opts.MaxBytesPerFile = 200
+	opts.MaxBytesPerFile = int64(vfEnvInt("VERIF_MAXFILE", 200))
 	n, err := New(opts)
 	if err != nil {
+		t.Fatal(err)
+	}
+	// the start-up sequence of apps/nsqd/main.go: LoadMetadata, PersistMetadata, Main
+	if err := n.LoadMetadata(); err != nil {
+		t.Fatal(err)
+	}
+	if err := n.PersistMetadata(); err != nil {
 		t.Fatal(err)
 	}
 	go n.Main()
